@@ -318,12 +318,17 @@ def gen_device(
 
 def gen_world(rng: random.Random, **kw) -> dict:
     reg_kw = {k: kw.pop(k) for k in ("n_min", "n_max", "dim3_p", "int_ids_p") if k in kw}
+    style_p = kw.pop("call_style_p", 0.0)
     dev = gen_device(rng, **kw)
     reg = gen_register(rng, **reg_kw)
     if dev["kind"] == "builtin" and dev["name"] != "MockDevice":
         reg["dim"] = 2
         reg["coords"] = [c[:2] for c in reg["coords"]]
-    return {"device": dev, "register": reg}
+    world = {"device": dev, "register": reg}
+    if style_p and rng.random() < style_p:
+        # how the run passes arguments: all by keyword / all positional
+        world["call_style"] = _pick(rng, ["kw", "pos"])
+    return world
 
 
 def channel_table(device) -> dict[str, Any]:
